@@ -10,6 +10,10 @@ type Will struct {
 	QoS    byte   `json:"qos"`
 	Retain bool   `json:"retain,omitempty"`
 	Size   int    `json:"size"` // payload size (0 = empty)
+	// Ver, if non-zero, makes the will payload a function of (client, Ver)
+	// instead of the connection, so that two connections of a client can send
+	// byte-identical CONNECT packets.
+	Ver int `json:"ver,omitempty"`
 }
 
 // Op is one scripted client operation.
